@@ -53,6 +53,7 @@ const (
 	OpWait                      // epoll_wait                            -> set of role:bits, "-" if empty
 	OpWrite                     // write(role, N bytes)                  -> n>0 | EAGAIN | EPIPE/ECONNRESET | errno
 	OpFill                      // write(role) in a loop until EAGAIN    -> n>0..EAGAIN | EAGAIN | errno
+	OpWriteHuge                 // one write far larger than any buffer  -> short | all | EAGAIN | errno
 	OpRead                      // read(role, buffer of N bytes)         -> exact count | errno
 	OpClose                     // close(role)                           -> ok | errno
 	OpSoError                   // getsockopt(role, SO_ERROR)            -> 0 | errno name
@@ -70,15 +71,17 @@ const (
 	OpConnectRefused            // C: non-blocking connect to a port without listener -> EINPROGRESS (then refused)
 	OpConnectPending            // C: non-blocking connect that stays in SYN_SENT     -> EINPROGRESS
 	OpConnectAccepted           // C: non-blocking connect that then completes        -> EINPROGRESS
+	OpDialCompletes             // the pending connect of C completes now (the server side becomes the Peer)
+	OpDialRefused               // the pending connect of C is refused now
 )
 
 var opNames = map[Op]string{
 	OpEpollAdd: "EpollAdd", OpEpollMod: "EpollMod", OpEpollDel: "EpollDel", OpWait: "Wait", OpWrite: "Write",
-	OpFill: "FillUntilEAGAIN", OpRead: "Read", OpClose: "Close", OpSoError: "SoError",
+	OpFill: "FillUntilEAGAIN", OpWriteHuge: "WriteHuge", OpRead: "Read", OpClose: "Close", OpSoError: "SoError",
 	OpPeerWrite: "PeerWrite", OpPeerDrainAll: "PeerDrainAll", OpPeerCloseWrite: "PeerCloseWrite", OpPeerClose: "PeerClose",
 	OpPeerReset: "PeerReset", OpEventfdCreate: "EventfdCreate", OpEventfdWrite: "EventfdWrite", OpEventfdRead: "EventfdRead",
 	OpUDPCreate: "UDPCreate", OpUDPSend: "UDPSend", OpRecvfrom: "Recvfrom", OpConnectRefused: "ConnectRefused",
-	OpConnectPending: "ConnectPending", OpConnectAccepted: "ConnectAccepted",
+	OpConnectPending: "ConnectPending", OpConnectAccepted: "ConnectAccepted", OpDialCompletes: "DialCompletes", OpDialRefused: "DialRefused",
 }
 
 // Step is one line of a trace.
@@ -122,7 +125,7 @@ func (s Step) String() string {
 	switch s.Op {
 	case OpEpollAdd, OpEpollMod:
 		return fmt.Sprintf("%s(%s, %s)", n, s.Role, MaskString(s.Mask))
-	case OpEpollDel, OpClose, OpSoError, OpFill:
+	case OpEpollDel, OpClose, OpSoError, OpFill, OpWriteHuge:
 		return fmt.Sprintf("%s(%s)", n, s.Role)
 	case OpWrite, OpRead:
 		return fmt.Sprintf("%s(%s, %d)", n, s.Role, s.N)
@@ -150,24 +153,34 @@ func Wait(want string) Step { return Step{Op: OpWait, Expect: want} }
 func Write(r Role, n int) Step { return Step{Op: OpWrite, Role: r, N: n} }
 
 // FillUntilEAGAIN writes in a loop until the socket is full in the world at hand.
-func FillUntilEAGAIN(r Role) Step      { return Step{Op: OpFill, Role: r, Expect: "n>0..EAGAIN"} }
-func Read(r Role, bufsize int) Step    { return Step{Op: OpRead, Role: r, N: bufsize} }
-func Close(r Role) Step                { return Step{Op: OpClose, Role: r, Expect: "ok"} }
-func SoError(r Role) Step              { return Step{Op: OpSoError, Role: r} }
-func PeerWrite(n int) Step             { return Step{Op: OpPeerWrite, N: n, Expect: "ok"} }
-func PeerDrainAll() Step               { return Step{Op: OpPeerDrainAll, Expect: "drained"} }
-func PeerCloseWrite() Step             { return Step{Op: OpPeerCloseWrite, Expect: "ok"} }
-func PeerClose() Step                  { return Step{Op: OpPeerClose, Expect: "ok"} }
-func PeerReset() Step                  { return Step{Op: OpPeerReset, Expect: "ok"} }
-func EventfdCreate() Step              { return Step{Op: OpEventfdCreate, Role: E, Expect: "ok"} }
-func EventfdWrite(v int) Step          { return Step{Op: OpEventfdWrite, Role: E, N: v, Expect: "8"} }
-func EventfdRead() Step                { return Step{Op: OpEventfdRead, Role: E} }
-func UDPCreate() Step                  { return Step{Op: OpUDPCreate, Role: U, Expect: "ok"} }
-func UDPSend(from, n int) Step         { return Step{Op: OpUDPSend, Role: U, From: from, N: n, Expect: "ok"} }
-func Recvfrom(bufsize int) Step        { return Step{Op: OpRecvfrom, Role: U, N: bufsize} }
-func ConnectRefused() Step             { return Step{Op: OpConnectRefused, Role: C, Expect: "EINPROGRESS"} }
-func ConnectPending() Step             { return Step{Op: OpConnectPending, Role: C, Expect: "EINPROGRESS"} }
-func ConnectAccepted() Step            { return Step{Op: OpConnectAccepted, Role: C, Expect: "EINPROGRESS"} }
+func FillUntilEAGAIN(r Role) Step { return Step{Op: OpFill, Role: r, Expect: "n>0..EAGAIN"} }
+
+// WriteHuge is a single write of far more than fits (model: 100 bytes, kernel: 1 MiB): the
+// kernel takes a part and returns the short count; no EAGAIN is seen by the caller.
+func WriteHuge(r Role) Step         { return Step{Op: OpWriteHuge, Role: r, Expect: "short"} }
+func Read(r Role, bufsize int) Step { return Step{Op: OpRead, Role: r, N: bufsize} }
+func Close(r Role) Step             { return Step{Op: OpClose, Role: r, Expect: "ok"} }
+func SoError(r Role) Step           { return Step{Op: OpSoError, Role: r} }
+func PeerWrite(n int) Step          { return Step{Op: OpPeerWrite, N: n, Expect: "ok"} }
+func PeerDrainAll() Step            { return Step{Op: OpPeerDrainAll, Expect: "drained"} }
+func PeerCloseWrite() Step          { return Step{Op: OpPeerCloseWrite, Expect: "ok"} }
+func PeerClose() Step               { return Step{Op: OpPeerClose, Expect: "ok"} }
+func PeerReset() Step               { return Step{Op: OpPeerReset, Expect: "ok"} }
+func EventfdCreate() Step           { return Step{Op: OpEventfdCreate, Role: E, Expect: "ok"} }
+func EventfdWrite(v int) Step       { return Step{Op: OpEventfdWrite, Role: E, N: v, Expect: "8"} }
+func EventfdRead() Step             { return Step{Op: OpEventfdRead, Role: E} }
+func UDPCreate() Step               { return Step{Op: OpUDPCreate, Role: U, Expect: "ok"} }
+func UDPSend(from, n int) Step      { return Step{Op: OpUDPSend, Role: U, From: from, N: n, Expect: "ok"} }
+func Recvfrom(bufsize int) Step     { return Step{Op: OpRecvfrom, Role: U, N: bufsize} }
+func ConnectRefused() Step          { return Step{Op: OpConnectRefused, Role: C, Expect: "EINPROGRESS"} }
+func ConnectPending() Step          { return Step{Op: OpConnectPending, Role: C, Expect: "EINPROGRESS"} }
+func ConnectAccepted() Step         { return Step{Op: OpConnectAccepted, Role: C, Expect: "EINPROGRESS"} }
+
+// DialCompletes / DialRefused resolve the connect started by ConnectPending after the socket
+// was registered. On the real kernel the resolution rides on the retransmitted SYN (1 s after
+// the first one): the replay waits up to slowArrive for the state change.
+func DialCompletes() Step              { return Step{Op: OpDialCompletes, Role: C, Expect: "ok"} }
+func DialRefused() Step                { return Step{Op: OpDialRefused, Role: C, Expect: "ok"} }
 func steps(s ...Step) []Step           { return s }
 func on(transports ...string) []string { return transports }
 
@@ -177,7 +190,9 @@ type Trace struct {
 	About string // one line for the reader
 	Facts []int  // numbers of the required facts (see FactText) this trace checks
 	// On lists the transports the trace is replayed on: "tcp", "unix" for traces with a stream
-	// socket A, "none" for traces without one.
+	// socket A (a TCP loopback connection / an AF_UNIX socketpair whose other end is the Peer);
+	// traces without A name what they are about instead: "tcp-connect" (C is a real TCP socket
+	// connecting over loopback), "udp", "eventfd".
 	On    []string
 	Steps []Step
 }
@@ -285,6 +300,18 @@ func writeClass(n int, err error) string {
 		return "EPIPE/ECONNRESET"
 	}
 	return errClass(err)
+}
+
+func hugeClass(n, asked int, err error) string {
+	switch {
+	case err != nil:
+		return errClass(err)
+	case n > 0 && n < asked:
+		return "short"
+	case n == asked:
+		return "all"
+	}
+	return "0"
 }
 
 // readClass: the exact count (both worlds have everything queued when a read is issued; the
